@@ -1,3 +1,269 @@
-/- C11: property theorems (none yet). -/
+import Wz.Proofs.C11_Isolation
+import Wz.Gen.C11Sharing
+/-
+C11 — Instances are isolated unless explicitly linked.
+
+Model (`Wz.Model.Isolation`): ONE heap holding the read-only objects of compiled modules (segment bytes,
+element vectors, function code) and, per instance, six mutable objects (memory, table, globals, data
+headers, element headers, system context = fd table + stdout + clocks + random position). `hstep` runs an
+op of one instance inside that heap, following the header pointers into the shared segment objects;
+`lstep` is the same op on a LONE instance that owns private copies of everything.
+
+Property at full strength (all op lists, all interleavings, any number of instances and modules):
+`noninterference`. Tie A: `facts_classified`, `shape_ok`, `shape_asIs` over the facts regenerated from
+`Store.instantiate` & co. Not provable here: that the engines' machine code / interpreter loop never writes
+through the aliased `d.Init` slices — the model has no op that writes a segment object, the harness hashes
+the real segment bytes before/after every run.
+-/
 namespace Wz.C11
+open Wz.Model.Isolation
+
+/-! ## tie A: obligations over the regenerated facts -/
+
+/-- every part of a new `ModuleInstance` that aliases the compiled module is in the read-only class, and the
+extractor could classify every assignment (finite regenerated table: `decide` is a proof) -/
+theorem facts_classified : classified Wz.Gen.C11Sharing.fields = true := by decide
+
+/-- the six mutable objects of an instance are freshly allocated by `instantiate` -/
+theorem shape_ok : Wz.Gen.C11Sharing.shape.ok = true := by decide
+
+/-- the shape the model was written against: only `DataInstances[i]` aliases (`= d.Init`) -/
+theorem shape_asIs : Wz.Gen.C11Sharing.shape = Shape.asIs := by decide
+
+/-- instances made by `instantiate` under an ok shape have private mutable objects -/
+theorem instantiate_private (sh : Shape) (hs : sh.ok = true) (h : Heap) (mid : Nat) (md : Module) (iid : Nat) :
+    Private (instantiate sh h mid md iid).2 ∧ (instantiate sh h mid md iid).2.id = iid := by
+  obtain ⟨a, b, c, d, e, f, g, k⟩ := sh
+  simp [Shape.ok] at hs
+  obtain ⟨⟨⟨⟨⟨h1, h2⟩, h3⟩, h4⟩, h5⟩, h6⟩ := hs
+  subst h1 h2 h3 h4 h5 h6
+  exact ⟨⟨rfl, rfl, rfl, rfl, rfl, rfl, mid, rfl⟩, rfl⟩
+
+/-! ## one step -/
+
+/-- a step of instance `i` changes only objects owned by `i` … -/
+theorem step_frames_instance (env : Env) (h : Heap) (i : Inst) (op : Op) (hp : Private i) (a : Addr)
+    (ha : ∀ f, a ≠ .own i.id f) : (hstep env h i op).1.get a = h.get a :=
+  hstep_frame env h i op hp a ha
+
+/-- … in particular never an object of a compiled module, nor any instance's segment copy -/
+theorem step_never_writes_shared (env : Env) (h : Heap) (i : Inst) (op : Op) (hp : Private i) (mid : Nat) (sl : Slot) :
+    (hstep env h i op).1.get (.shared mid sl) = h.get (.shared mid sl) :=
+  hstep_frame env h i op hp _ (fun _ e => by cases e)
+
+/-- a step in the shared heap is exactly the step of the lone instance (state and output) -/
+theorem step_refines_lone (env : Env) (h : Heap) (i : Inst) (s : LState) (op : Op) (hp : Private i) (r : Rel h i s) :
+    Rel (hstep env h i op).1 i (lstep env s op).1 ∧ (hstep env h i op).2 = (lstep env s op).2 := by
+  have rm := r.mem; have rt := r.tbl; have rg := r.glob; have rs := r.sys; have rc := r.code
+  obtain ⟨dh, rdh, fd⟩ := r.data
+  obtain ⟨eh, reh, fe⟩ := r.elem
+  cases op with
+  | m o => simp only [hstep, lstep, rm]; exact ⟨rel_set_mem hp r _, trivial⟩
+  | g o => simp only [hstep, lstep, rg]; exact ⟨rel_set_glob hp r _, trivial⟩
+  | t o => simp only [hstep, lstep, rt]; exact ⟨rel_set_tbl hp r _, trivial⟩
+  | calli ix => simp only [hstep, lstep, rt, rc, rg]; exact ⟨r, trivial⟩
+  | minit k d sO n =>
+    simp only [hstep, lstep, rdh, rm]
+    cases hk : dh[k]? with
+    | none => simp only [forall2_get_none fd k hk]; exact ⟨r, trivial⟩
+    | some e =>
+      obtain ⟨y, hy, ry⟩ := forall2_get fd k e hk
+      simp only [hy, segBytes, seg_of_rel ry]
+      exact ⟨rel_set_mem hp r _, trivial⟩
+  | ddrop k =>
+    simp only [hstep, lstep, rdh, forall2_length fd]
+    split
+    · exact ⟨rel_drop_data hp r dh rdh k, rfl⟩
+    · exact ⟨r, rfl⟩
+  | tinit k d sO n =>
+    simp only [hstep, lstep, reh, rt]
+    cases hk : eh[k]? with
+    | none => simp only [forall2_get_none fe k hk]; exact ⟨r, trivial⟩
+    | some e =>
+      obtain ⟨y, hy, ry⟩ := forall2_get fe k e hk
+      simp only [hy, segRefs, seg_of_rel ry]
+      exact ⟨rel_set_tbl hp r _, trivial⟩
+  | edrop k =>
+    simp only [hstep, lstep, reh, forall2_length fe]
+    split
+    · exact ⟨rel_drop_elem hp r eh reh k, rfl⟩
+    · exact ⟨r, rfl⟩
+  | s o =>
+    simp only [hstep, lstep, rm, rs]
+    have r1 := rel_set_mem hp r (sysOp env s.mem s.sys o).1
+    have r2 := rel_set_sys hp r1 (sysOp env s.mem s.sys o).2.1
+    exact ⟨r2, trivial⟩
+
+/-- a step of instance `i` is invisible to every other instance -/
+theorem step_preserves_others (env : Env) (h : Heap) (i j : Inst) (sj : LState) (op : Op)
+    (hpi : Private i) (hpj : Private j) (hne : j.id ≠ i.id) (r : Rel h j sj) : Rel (hstep env h i op).1 j sj :=
+  rel_frame i.id (fun a ha => hstep_frame env h i op hpi a ha) hpj hne r
+
+/-! ## all interleavings -/
+
+/-- FULL STATEMENT. For every schedule (= every interleaving of the op lists of any number of instances, of the
+same or of different compiled modules) run in one heap, the projection to instance `i` — its final state AND its
+outputs — is the lone run of `i`'s own ops. `tab` is any instance table whose instances have private mutable
+objects (which `instantiate` guarantees for the regenerated shape: `shape_ok`, `instantiate_private`). -/
+theorem noninterference (env : Env) (tab : Nat → Option Inst)
+    (htab : ∀ k inst, tab k = some inst → inst.id = k ∧ Private inst)
+    (i : Inst) (hi : tab i.id = some i) :
+    ∀ (sched : List (Nat × Op)) (h : Heap) (s : LState), Rel h i s →
+      Rel (hrun env tab h sched).1 i (lrun env s (proj i.id sched)).1 ∧
+      projRes i.id (hrun env tab h sched).2 = (lrun env s (proj i.id sched)).2 := by
+  have hpi := (htab _ _ hi).2
+  intro sched
+  induction sched with
+  | nil => intro h s r; exact ⟨r, rfl⟩
+  | cons e rest ih =>
+    intro h s r
+    obtain ⟨k, o⟩ := e
+    by_cases hk : k = i.id
+    · subst hk
+      have hpr : proj i.id ((i.id, o) :: rest) = o :: proj i.id rest := by simp [proj]
+      simp only [hrun, hi, hpr, lrun]
+      obtain ⟨r', ho⟩ := step_refines_lone env h i s o hpi r
+      obtain ⟨ihr, iho⟩ := ih (hstep env h i o).1 (lstep env s o).1 r'
+      refine ⟨ihr, ?_⟩
+      simp only [projRes, List.filter_cons, beq_self_eq_true, ite_true, List.map_cons] at iho ⊢
+      rw [ho]; exact congrArg _ iho
+    · have hpr : proj i.id ((k, o) :: rest) = proj i.id rest := by simp [proj, hk]
+      rw [hpr]
+      cases ht : tab k with
+      | none => simp only [hrun, ht]; exact ih h s r
+      | some inst =>
+        obtain ⟨hid, hpj⟩ := htab k inst ht
+        simp only [hrun, ht]
+        have r' := step_preserves_others env h inst i s o hpj hpi (by rw [hid]; exact fun e => hk e.symm) r
+        obtain ⟨ihr, iho⟩ := ih (hstep env h inst o).1 s r'
+        refine ⟨ihr, ?_⟩
+        have : ((k, (hstep env h inst o).2) :: (hrun env tab (hstep env h inst o).1 rest).2).filter (fun e => e.1 == i.id)
+            = ((hrun env tab (hstep env h inst o).1 rest).2).filter (fun e => e.1 == i.id) := by
+          simp [List.filter_cons, hk]
+        simp only [projRes, this]
+        exact iho
+
+/-- dropping a data segment in instance `i` leaves every other instance `j` able to `memory.init` from it:
+the `memory.init` of `j` after `i`'s drop has the result and the effect it has for `j` alone -/
+theorem drop_is_local (env : Env) (h : Heap) (i j : Inst) (sj : LState) (k k' d s n : Nat)
+    (hpi : Private i) (hpj : Private j) (hne : j.id ≠ i.id) (r : Rel h j sj) :
+    let h' := (hstep env h i (.ddrop k)).1
+    (hstep env h' j (.minit k' d s n)).2 = (lstep env sj (.minit k' d s n)).2 ∧
+    Rel (hstep env h' j (.minit k' d s n)).1 j (lstep env sj (.minit k' d s n)).1 := by
+  intro h'
+  have r' := step_preserves_others env h i j sj (.ddrop k) hpi hpj hne r
+  obtain ⟨a, b⟩ := step_refines_lone env h' j sj (.minit k' d s n) hpj r'
+  exact ⟨b, a⟩
+
+/-- same for element segments and `table.init` -/
+theorem elem_drop_is_local (env : Env) (h : Heap) (i j : Inst) (sj : LState) (k k' d s n : Nat)
+    (hpi : Private i) (hpj : Private j) (hne : j.id ≠ i.id) (r : Rel h j sj) :
+    let h' := (hstep env h i (.edrop k)).1
+    (hstep env h' j (.tinit k' d s n)).2 = (lstep env sj (.tinit k' d s n)).2 ∧
+    Rel (hstep env h' j (.tinit k' d s n)).1 j (lstep env sj (.tinit k' d s n)).1 := by
+  intro h'
+  have r' := step_preserves_others env h i j sj (.edrop k) hpi hpj hne r
+  obtain ⟨a, b⟩ := step_refines_lone env h' j sj (.tinit k' d s n) hpj r'
+  exact ⟨b, a⟩
+
+/-! ## instantiating later does not disturb, and is not disturbed -/
+
+theorem setMany_frame (mk : Nat → Addr) (mkObj : List Nat → Obj) (a : Addr) (ha : ∀ k, a ≠ mk k) :
+    ∀ (xs : List (List Nat)) (h : Heap) (k : Nat), (setMany h mk mkObj k xs).get a = h.get a
+  | [], _, _ => rfl
+  | x :: xs, h, k => by
+    simp only [setMany]
+    rw [setMany_frame mk mkObj a ha xs _ (k + 1)]
+    exact Heap.get_set_ne _ _ _ _ (ha k)
+
+/-- `instantiate` of a new instance `iid` writes only `iid`'s own objects and segment copies -/
+theorem instantiate_frame (sh : Shape) (hs : sh.ok = true) (h : Heap) (mid : Nat) (md : Module) (iid : Nat) (a : Addr)
+    (h1 : ∀ f, a ≠ .own iid f) (h2 : ∀ k, a ≠ .ownD iid k) (h3 : ∀ k, a ≠ .ownE iid k) :
+    (instantiate sh h mid md iid).1.get a = h.get a := by
+  obtain ⟨x1, x2, x3, x4, x5, x6, g, k⟩ := sh
+  simp [Shape.ok] at hs
+  obtain ⟨⟨⟨⟨⟨e1, e2⟩, e3⟩, e4⟩, e5⟩, e6⟩ := hs
+  subst e1 e2 e3 e4 e5 e6
+  have hD := setMany_frame (fun k => Addr.ownD iid k) Obj.bytes a h2
+  have hE := setMany_frame (fun k => Addr.ownE iid k) Obj.refs a h3
+  cases g <;> cases k <;>
+    simp [instantiate, setIf, mkInst, fldAddr, Heap.set, h1, hD, hE]
+
+/-- an instance created while others are running leaves every existing instance exactly as it was -/
+theorem instantiate_preserves_others (sh : Shape) (hs : sh.ok = true) (h : Heap) (mid : Nat) (md : Module) (iid : Nat)
+    (j : Inst) (sj : LState) (hpj : Private j) (hne : j.id ≠ iid) (r : Rel h j sj) :
+    Rel (instantiate sh h mid md iid).1 j sj := by
+  have fr : ∀ a, (∀ f, a ≠ .own iid f) → (∀ k, a ≠ .ownD iid k) → (∀ k, a ≠ .ownE iid k) →
+      (instantiate sh h mid md iid).1.get a = h.get a :=
+    fun a h1 h2 h3 => instantiate_frame sh hs h mid md iid a h1 h2 h3
+  obtain ⟨id, mem, tbl, glob, dhdr, ehdr, sys, code⟩ := j
+  obtain ⟨p1, p2, p3, p4, p5, p6, m', p7⟩ := hpj
+  simp only at p1 p2 p3 p4 p5 p6 p7 hne
+  subst p1 p2 p3 p4 p5 p6 p7
+  have own : ∀ f, (instantiate sh h mid md iid).1.get (.own id f) = h.get (.own id f) := fun f =>
+    fr _ (fun g e => by injection e with e1 _; exact hne e1) (fun _ e => by cases e) (fun _ e => by cases e)
+  have ro : ∀ a, roFor id a → (instantiate sh h mid md iid).1.get a = h.get a := by
+    intro a ha
+    refine fr a (fun f => roFor_ne_own ha iid f) ?_ ?_
+    · intro k e; subst e; simp [roFor] at ha; exact hne ha.symm
+    · intro k e; subst e; simp [roFor] at ha; exact hne ha.symm
+  obtain ⟨rm, rt, rg, rs, rc, ⟨dh, rdh, fd⟩, ⟨eh, reh, fe⟩⟩ := r
+  exact ⟨by simp only [own]; exact rm, by simp only [own]; exact rt, by simp only [own]; exact rg,
+    by simp only [own]; exact rs,
+    by rw [fr _ (fun f e => by cases e) (fun _ e => by cases e) (fun _ e => by cases e)]; exact rc,
+    ⟨dh, by simp only [own]; exact rdh, forall2_imp (segRel_frame ro) fd⟩,
+    ⟨eh, by simp only [own]; exact reh, forall2_imp (segRel_frame ro) fe⟩⟩
+
+/-! ## non-vacuity and the necessity of the shape obligation (samples: tests, not proofs of the property) -/
+
+def exEnv : Env := ⟨[7, 8, 9, 10], [([102, 48], [65, 66, 67])], [120, 121]⟩
+def exMod : Module :=
+  { memMin := 1, memMax := 2, tblMin := 3, tblMax := 4, globals := [(32, 5)], fns := [(1001, true), (1002, false)],
+    dpas := [[11, 12, 13]], dact := [(16, [1, 2])], epas := [[1, 0, 2]], eact := [(0, [2])] }
+def exHeap (sh : Shape) : Heap × Inst × Inst :=
+  let h := loadModule Heap.empty 0 exMod
+  let r0 := instantiate sh h 0 exMod 0
+  let r1 := instantiate sh r0.1 0 exMod 1
+  (r1.1, r0.2, r1.2)
+
+/-- sample: two instances of one module under the regenerated shape are `Private` and their views are the lone
+initial state — the hypotheses of `noninterference` are met by a concrete non-trivial heap -/
+example : view (exHeap Wz.Gen.C11Sharing.shape).1 (exHeap Wz.Gen.C11Sharing.shape).2.1 = some (linit exMod) := by decide
+example : view (exHeap Wz.Gen.C11Sharing.shape).1 (exHeap Wz.Gen.C11Sharing.shape).2.2 = some (linit exMod) := by decide
+example : Private (exHeap Shape.asIs).2.1 := ⟨rfl, rfl, rfl, rfl, rfl, rfl, 0, rfl⟩
+
+/-- sample: the abstraction relation itself holds for both instances of the sample heap (the hypothesis `Rel h i s` of
+`noninterference` is met by a concrete heap with an aliased data segment and a per-instance element copy) -/
+example : Rel (exHeap Shape.asIs).1 (exHeap Shape.asIs).2.1 (linit exMod) :=
+  ⟨by decide +kernel, by decide +kernel, by decide +kernel, by decide +kernel, by decide +kernel,
+   ⟨[some (.shared 0 (.dseg 0))], by decide +kernel, .cons ⟨trivial, by decide +kernel⟩ .nil⟩,
+   ⟨[some (.ownE 0 0)], by decide +kernel, .cons ⟨rfl, by decide +kernel⟩ .nil⟩⟩
+example : Rel (exHeap Shape.asIs).1 (exHeap Shape.asIs).2.2 (linit exMod) :=
+  ⟨by decide +kernel, by decide +kernel, by decide +kernel, by decide +kernel, by decide +kernel,
+   ⟨[some (.shared 0 (.dseg 0))], by decide +kernel, .cons ⟨trivial, by decide +kernel⟩ .nil⟩,
+   ⟨[some (.ownE 1 0)], by decide +kernel, .cons ⟨rfl, by decide +kernel⟩ .nil⟩⟩
+
+/-- sample: instance 0 drops data segment 0 and writes its memory; instance 1 can still `memory.init` from the segment
+and reads 0 where instance 0 wrote -/
+example :
+    let w := exHeap Shape.asIs
+    let h1 := (hstep exEnv w.1 w.2.1 (.ddrop 0)).1
+    let h2 := (hstep exEnv h1 w.2.1 (.m (.store8 100 77))).1
+    (hstep exEnv h2 w.2.1 (.minit 0 200 0 3)).2 = .trap "mem" ∧
+    (hstep exEnv h2 w.2.2 (.minit 0 200 0 3)).2 = .ok [] ∧
+    (hstep exEnv h2 w.2.2 (.m (.load8 100))).2 = .ok [0] := by decide
+
+/-- WITNESS that the obligation `shape_ok` is what carries the property: were the memory buffer cached on the compiled
+module (shape.mem = shared), a store of instance 0 would be read by instance 1 -/
+theorem shared_memory_interferes :
+    let sh : Shape := { Shape.asIs with mem := .shared }
+    let w := exHeap sh
+    (hstep exEnv (hstep exEnv w.1 w.2.1 (.m (.store8 100 77))).1 w.2.2 (.m (.load8 100))).2 = .ok [77] := by decide +kernel
+
+/-- … and were the data-instance header list shared (built once per compiled module), a drop would be global -/
+theorem shared_headers_interfere :
+    let sh : Shape := { Shape.asIs with dhdr := .shared }
+    let w := exHeap sh
+    (hstep exEnv (hstep exEnv w.1 w.2.1 (.ddrop 0)).1 w.2.2 (.minit 0 200 0 3)).2 = .trap "mem" := by decide +kernel
+
 end Wz.C11
